@@ -644,6 +644,15 @@ func c07Arranged() []c07Twin {
 		c07Twin{"description-pasted-twice", "Description\n  (\n  text\n  )\n", "GET /a\n  <P>  <P>  200 any\n"},
 		c07Twin{"headers-pasted-under-request-and-response", "Headers\n  {\"h\": \"v\"}\n", "POST /a\n  Request\n    <P>    Body any\n  200\n    <P>    Body any\n"},
 	)
+	// a directive the parenthesised host does not admit (further out it would be admitted): refused in both forms
+	out = append(out,
+		c07Twin{"inadmissible-in-parenthesised-response-with-schema", "404 any\n", "GET /a\n  200\n  (\n    {\"id\": 1}\n    <P>  )\n"},
+		c07Twin{"inadmissible-in-parenthesised-request-with-schema", "200 any\n", "POST /a\n  Request\n  (\n    {\"id\": 1}\n    <P>  )\n  201 any\n"},
+		c07Twin{"inadmissible-in-parenthesised-response-with-body-child", "404 any\n", "GET /a\n  200\n  (\n    Body\n      {\"id\": 1}\n    <P>  )\n"},
+		c07Twin{"admissible-in-parenthesised-response-with-schema", "Headers\n  {\"h\": \"v\"}\n", "GET /a\n  200\n  (\n    <P>    Body\n      {\"id\": 1}\n  )\n"},
+		c07Twin{"inadmissible-in-parenthesised-type", "GET /zz\n  200 any\n", "TYPE @t\n(\n  {\"id\": 1}\n  <P>)\n"},
+		c07Twin{"inadmissible-in-parenthesised-method", "TYPE @zz any\n", "GET /a\n(\n  200 any\n  <P>)\n"},
+	)
 	for _, n := range []int{10, 11, 12, 21, 35} {
 		nn := n
 		out = append(out,
